@@ -93,4 +93,25 @@ func verifC06(flags, src, hash, digits, keylen int) {
 	verifAssert(ok == verifAnd(gerr == nil, verifStrEq(code, gen)), "accept-iff-generation-returns-this-string")
 	verifAssert(ok == (err == nil), "verdict-and-error-agree")
 	verifAssert(verifImplies(gerr != nil, verifAnd(!ok, err != nil)), "generation-failure-means-false-with-error")
+	if !verifSymbolic() && gerr != nil && !fails {
+		// native twin of the last clause (a model found with an arbitrary digest cannot carry the real
+		// code): submit the real code of the nearest admissible input - fields zero-extended or cut to
+		// the required lengths - together with the inadmissible input; it must still be refused
+		fix := func(b []byte, min, max int) []byte {
+			c := append([]byte{}, b...)
+			for len(c) < min {
+				c = append(c, 0)
+			}
+			if len(c) > max {
+				c = c[:max]
+			}
+			return c
+		}
+		near := OCRAInput{Counter: fix(in.Counter, 8, 8), Challenge: fix(in.Challenge, 8, 128), Password: fix(in.Password, 20, 20),
+			SessionInfo: fix(in.SessionInfo, 0, 128), Timestamp: fix(in.Timestamp, 8, 8)}
+		if ncode, nerr := GenerateOCRA(secret, s, near); nerr == nil {
+			nok, nerr2 := ValidateOCRA(secret, ncode, s, in)
+			verifAssert(!nok && nerr2 != nil, "generation-failure-means-false-with-error")
+		}
+	}
 }
